@@ -1,6 +1,8 @@
 (* C13 — extra dimensions stay consistent across add / remove histories.
    Model: Model/ExtraDims.v.  A state is (format id, extra dimensions, per record: standard bytes and name -> raw bytes,
-   VLR list); operations Add params | Remove names | Assign name raw-values | AssignStd raw-blocks | RoundTrip.
+   VLR list); operations Add params | Remove names | Assign name raw-values | AssignStd raw-blocks |
+   SetPoints format record-bytes (las.points = a record carrying its own PointFormat: a copy, the record of another
+   LasData or of a re-read file, with any number of points) | RoundTrip.
    `ops_okb s ops` is the one hypothesis on inputs: the names an Add introduces are pairwise different, are not current
    extra dimensions and are not standard dimension names of the format (laspy fails inside numpy on a duplicate name
    after the header was already changed — DESIGN section 6, observation 13 — so nothing is claimed there).
@@ -140,6 +142,35 @@ Theorem C13_assign_reads_back : forall s n vals, Inv s -> snd (step s (Assign n 
 Proof. exact assign_reads_back. Qed.
 Print Assumptions C13_assign_reads_back.
 
+(* whole-record assignment between the steps of a history (las.points = las.points.copy(), = other.points, = the
+   record of a re-read file ...): a record whose own format compares equal (PointFormat.__eq__) is taken byte for
+   byte, with any number of points, format and VLRs stay — and because C13_inv, C13_add_ok, C13_remove_ok quantify
+   over histories that contain SetPoints, the adds / removes that follow behave as after any other step *)
+Theorem C13_set_points_ok : forall s ex recs std, Inv s -> std_size (st_fmt s) = Some std -> recs_okb std ex recs = true ->
+  fmt_eqv ex (st_extras s) = true ->
+  snd (step s (SetPoints ex recs)) = Ok tt
+  /\ st_extras (fst (step s (SetPoints ex recs))) = st_extras s
+  /\ st_vlrs (fst (step s (SetPoints ex recs))) = st_vlrs s
+  /\ map rec_bytes (st_recs (fst (step s (SetPoints ex recs)))) = recs.
+Proof. exact set_points_ok. Qed.
+Print Assumptions C13_set_points_ok.
+
+(* in particular a record of the very same extra dimensions (no NaN among scales / offsets) is always accepted *)
+Theorem C13_set_points_same_format : forall s recs std, Inv s -> std_size (st_fmt s) = Some std ->
+  forallb no_nan_scales (st_extras s) = true -> recs_okb std (st_extras s) recs = true ->
+  snd (step s (SetPoints (st_extras s) recs)) = Ok tt
+  /\ st_extras (fst (step s (SetPoints (st_extras s) recs))) = st_extras s
+  /\ st_vlrs (fst (step s (SetPoints (st_extras s) recs))) = st_vlrs s
+  /\ map rec_bytes (st_recs (fst (step s (SetPoints (st_extras s) recs)))) = recs.
+Proof. exact set_points_same_format. Qed.
+Print Assumptions C13_set_points_same_format.
+
+(* a record of a different format is refused with a LaspyException (IncompatibleDataFormat) and nothing changes *)
+Theorem C13_set_points_mismatch : forall s ex recs std, std_size (st_fmt s) = Some std -> recs_okb std ex recs = true ->
+  fmt_eqv ex (st_extras s) = false -> step s (SetPoints ex recs) = (s, Err ELaspy).
+Proof. exact set_points_mismatch. Qed.
+Print Assumptions C13_set_points_mismatch.
+
 (* a concrete history on point format 0, two records: add a scaled 3 x float64, an opaque 10-byte array (size with
    bit 3 set) and a uint64; assign 2^53+1 and 2^64-1; remove the middle one; refused removals (unknown, standard, a
    name given twice) change nothing; round trip; remove everything: no extra-bytes VLR is left *)
@@ -162,6 +193,13 @@ Example C13_nonvacuous :
   /\ step s1 (Remove [[97]; [88]]) = (s1, Err ELaspy)
   /\ step s1 (Remove [[99]; [97]; [99]]) = (s1, Err ELaspy)
   /\ step s1 RoundTrip = (s1, Ok tt)
+  /\ (let pts := [repeat 7 52%nat; repeat 8 52%nat; repeat 9 52%nat] in     (* another record, three points *)
+      let s2 := run s1 [SetPoints [A; C] pts; Add [B]; Remove [[97]]] in
+      ops_okb s1 [SetPoints [A; C] pts; Add [B]; Remove [[97]]] = true
+      /\ extra_names (st_extras s2) = [[99]; [98; 98]]
+      /\ map rec_bytes (st_recs s2) = map (fun v => repeat v 28%nat ++ repeat 0 10%nat) [7; 8; 9]
+      /\ map (fun v => (v_rid v, len (v_data v))) (st_vlrs s2) = [(7, 3); (4, 384)])
+  /\ step s1 (SetPoints [A] [repeat 7 44%nat]) = (s1, Err ELaspy)
   /\ st_vlrs (run s1 [Remove [[97]; [99]]; RoundTrip]) = [foreign]
   /\ map rec_bytes (st_recs (run s1 [Remove [[99]; [97]]])) = [repeat 1 20%nat; repeat 2 20%nat].
 Proof. vm_compute. repeat split; reflexivity. Qed.
